@@ -39,13 +39,13 @@ theorem dataLL_get {s : Nat} {sibs : List DNode} {l : List Bytes} (h : DataLL s 
     exact ⟨nw, by rw [e]⟩
 
 /-- **One diff node.** -/
-theorem applyStep_op {S : Schema} {s : Nat} (C : LLCtx S s) (fx : Fixes) (recur : Recur) {sibs : List DNode}
+theorem applyStep_op {S : Schema} {s : Nat} (C : LLCtx S s) (fx : Fixes) (recur : Recur) (hp : Bool) (inh : Option Op) {sibs : List DNode}
     {l l' : List Bytes} (h : DataLL s sibs l) {d : DNode} {op : UOG.UOp Bytes} (hop : IsOpNode s d op)
     (hap : UOG.applyOp (some l) op = some l') :
-    ∃ sibs', applyStep S fx recur sibs false none d = .ok sibs' ∧ DataLL s sibs' l' := by
+    ∃ sibs', applyStep S fx recur sibs hp inh d = .ok sibs' ∧ DataLL s sibs' l' := by
   cases hop with
   | del k ov =>
-    have he : effOp (delNode s ov k) none = some .delete := by rfl
+    have he : effOp (delNode s ov k) inh = some .delete := by rfl
     simp only [UOG.applyOp, Option.bind_some] at hap
     by_cases hk : k ∈ l
     · simp only [hk, if_true, Option.some.injEq] at hap
@@ -57,14 +57,14 @@ theorem applyStep_op {S : Schema} {s : Nat} (C : LLCtx S s) (fx : Fixes) (recur 
       simp [applyDelete, delNode, hf]
     · simp [hk] at hap
   | create k a ha =>
-    have he : effOp (createNode s (a.getD []) k) none = some .create := by rfl
+    have he : effOp (createNode s (a.getD []) k) inh = some .create := by rfl
     simp only [UOG.applyOp, Option.bind_some] at hap
     by_cases hk : k ∈ l
     · simp [hk] at hap
     · simp only [hk, if_false] at hap
       have hn : ∃ nw, dupSingle S (createNode s (a.getD []) k) = .term s { new := nw } [] (dupSingle S (createNode s (a.getD []) k)).val :=
         ⟨true, rfl⟩
-      obtain ⟨sibs', e1, e2⟩ := insertUO_new C h (dupSingle S (createNode s (a.getD []) k)) hn a hap
+      obtain ⟨sibs', e1, e2⟩ := insertUO_new C hp h (dupSingle S (createNode s (a.getD []) k)) hn a hap
       refine ⟨sibs', ?_, e2⟩
       have hm : getMeta (createNode s (a.getD []) k) "value" = some (a.getD []) := by rfl
       have hsid : (createNode s (a.getD []) k).sid = s := rfl
@@ -73,14 +73,14 @@ theorem applyStep_op {S : Schema} {s : Nat} (C : LLCtx S s) (fx : Fixes) (recur 
         applyKids_term S fx recur _ (rfl : (createNode s (a.getD []) k).kids = []), bind, Except.bind]
       simp [e1, hset, dupSingle, createNode, DNode.setKids] at *
   | move k ov a ha =>
-    have he : effOp (moveNode s ov (a.getD []) k) none = some .replace := by rfl
+    have he : effOp (moveNode s ov (a.getD []) k) inh = some .replace := by rfl
     simp only [UOG.applyOp, Option.bind_some] at hap
     by_cases hc : k ∈ l ∧ a ≠ some k ∧ ¬ (a = none ∧ l.head? = some k)
     · rw [if_pos hc] at hap
       obtain ⟨nw, hg⟩ := dataLL_get h hc.1
       have hf := findForApply_ll C h (moveNode s ov (a.getD []) k) rfl
       simp only [moveNode, DNode.val, hc.1, if_true] at hf
-      obtain ⟨sibs', e1, e2⟩ := insertUO_move C h (.term s { new := nw } [] k) ⟨nw, rfl⟩ hc.1 a hc.2.1 hc.2.2 hap
+      obtain ⟨sibs', e1, e2⟩ := insertUO_move C hp h (.term s { new := nw } [] k) ⟨nw, rfl⟩ hc.1 a hc.2.1 hc.2.2 hap
       refine ⟨sibs', ?_, e2⟩
       have hm : getMeta (moveNode s ov (a.getD []) k) "value" = some (a.getD []) := by rfl
       have hsid : (moveNode s ov (a.getD []) k).sid = s := rfl
@@ -91,10 +91,10 @@ theorem applyStep_op {S : Schema} {s : Nat} (C : LLCtx S s) (fx : Fixes) (recur 
     · rw [if_neg hc] at hap; simp at hap
 
 /-- **The whole diff.**  `lyd_diff_apply_all` with the encodings of the core operations `ops` = `UOG.applyU … ops`. -/
-theorem apply_ops {S : Schema} {s : Nat} (C : LLCtx S s) (fx : Fixes) (fuel : Nat) {nodes : List DNode}
+theorem apply_ops {S : Schema} {s : Nat} (C : LLCtx S s) (fx : Fixes) (fuel : Nat) (hp : Bool) (inh : Option Op) {nodes : List DNode}
     {ops : List (UOG.UOp Bytes)} (hops : OpNodes s nodes ops) :
     ∀ (sibs : List DNode) (l l' : List Bytes), DataLL s sibs l → UOG.applyU l ops = some l' →
-      ∃ sibs', nodes.foldlM (fun sibs d => applyNode S fx (fuel + 1) sibs false none d) sibs = .ok sibs' ∧
+      ∃ sibs', nodes.foldlM (fun sibs d => applyNode S fx (fuel + 1) sibs hp inh d) sibs = .ok sibs' ∧
         DataLL s sibs' l' := by
   induction hops with
   | nil =>
@@ -109,11 +109,11 @@ theorem apply_ops {S : Schema} {s : Nat} (C : LLCtx S s) (fx : Fixes) (fuel : Na
     | none => simp [hl1] at hap
     | some l1 =>
       simp only [hl1, Option.bind_some] at hap
-      obtain ⟨sibs1, e1, d1⟩ := applyStep_op C fx (applyNode S fx fuel) h h1 hl1
+      obtain ⟨sibs1, e1, d1⟩ := applyStep_op C fx (applyNode S fx fuel) hp inh h h1 hl1
       obtain ⟨sibs', e2, d2⟩ := ih sibs1 l1 l' d1 hap
       refine ⟨sibs', ?_, d2⟩
       rw [List.foldlM_cons]
-      show (applyStep S fx (applyNode S fx fuel) sibs false none n >>= _) = _
+      show (applyStep S fx (applyNode S fx fuel) sibs hp inh n >>= _) = _
       rw [e1]
       exact e2
 
